@@ -24,8 +24,9 @@ static inline uint64_t rnd(void){ if(!rng) rng = seed ^ (uint64_t)pthread_self()
 #define MAXQ 12
 static dispatch_queue_t Q[MAXQ]; static int serial[MAXQ], nq;
 static atomic_int in_flight, viol, done_items; static atomic_long stamp; static char vmsg[200];
+static int wl_bottom;
 static void cb(const volatile void *addr, unsigned size, int op, uint64_t o, uint64_t n, const char *func, int line){ (void)size;
-  for (int i=0;i<nq;i++){ long d = (char*)addr - (char*)Q[i]; if (d >= 0 && d < 128) { if (!mytid) mytid = (int)syscall(SYS_gettid);
+  for (int i=wl_bottom;i<nq;i++){ long d = (char*)addr - (char*)Q[i]; if (d >= 0 && d < 128) {   /* a workloop's own state word is not replayed */ if (!mytid) mytid = (int)syscall(SYS_gettid);
     unsigned long k = atomic_fetch_add(&nev,1); if (k>=MAXEV) return;
     evs[k] = (ev_t){ atomic_fetch_add(&evseq,1), mytid, i, (int)d, op, o, n, func, line }; return; } } }
 static void dump(void){ unsigned long n = atomic_load(&nev); if (n>MAXEV) n=MAXEV;
@@ -41,21 +42,27 @@ static void work(void *c){ it2 *it = c;
   if (rnd()%4==0) sched_yield();
   atomic_fetch_sub(&in_flight,1); atomic_fetch_add(&done_items,1); free(it); }
 static int nops;
+extern dispatch_queue_t dispatch_workloop_create(const char *label);
 static void *client(void *a){ tix = (int)(intptr_t)a; long seq[MAXQ] = {0};
   for (int i=0;i<nops;i++){ int q = rnd()%nq; it2 *it = malloc(sizeof *it); it->q=q; it->thr=tix; it->seq=++seq[q];
-    switch (rnd()%4){ case 0: case 1: dispatch_async_f(Q[q], it, work); break; case 2: dispatch_sync_f(Q[q], it, work); break; case 3: dispatch_barrier_async_f(Q[q], it, work); break; } }
+    int k=(int)(rnd()%4); if(wl_bottom && q==0) k=0;      // a workloop takes asynchronous submissions only
+    switch (k){ case 0: case 1: dispatch_async_f(Q[q], it, work); break; case 2: dispatch_sync_f(Q[q], it, work); break; case 3: dispatch_barrier_async_f(Q[q], it, work); break; } }
   return NULL; }
+#include <signal.h>
+static void on_crash(int sig){ char b[200]; int n=snprintf(b,sizeof b,"ORACLE VIOL seed=%lu the library trapped or crashed (signal %d) while draining the hierarchy\n",(unsigned long)seed,sig); if(n>0) (void)!write(1,b,(size_t)n); _exit(1); }
 int main(int argc, char **argv){
+  signal(SIGILL,on_crash); signal(SIGSEGV,on_crash); signal(SIGABRT,on_crash); signal(SIGBUS,on_crash);
   seed = argc>1 ? strtoull(argv[1],0,0) : 1; int nthr = argc>2 ? atoi(argv[2]) : 4; nops = argc>3 ? atoi(argv[3]) : 300;
   rng = seed*7+1;
   nq = 3 + rnd()%(MAXQ-3);
-  Q[0] = dispatch_queue_create("bottom", DISPATCH_QUEUE_SERIAL); serial[0]=1;
+  wl_bottom = argc>4 ? atoi(argv[4]) : 0;      // 1: the bottom of the hierarchy is a workloop
+  Q[0] = wl_bottom ? dispatch_workloop_create("bottom-wl") : dispatch_queue_create("bottom", DISPATCH_QUEUE_SERIAL); serial[0]=1;
   for (int i=1;i<nq;i++){ int conc = rnd()%2; int parent = rnd()%i; serial[i] = !conc;
     dispatch_queue_attr_t attr = conc ? DISPATCH_QUEUE_CONCURRENT : DISPATCH_QUEUE_SERIAL;
     if (rnd()%3==0) { attr = dispatch_queue_attr_make_initially_inactive(attr); Q[i] = dispatch_queue_create("q", attr); dispatch_set_target_queue(Q[i], Q[parent]); dispatch_activate(Q[i]); }
     else Q[i] = dispatch_queue_create_with_target("q", attr, Q[parent]); }
   evs = calloc(MAXEV, sizeof(ev_t));
-  for (int i=0;i<nq;i++) printf("Q %d width %d stateoff %ld\n", i, serial[i]?1:4094, (long)((char*)_dispatch_verif_queue_state_addr(Q[i])-(char*)Q[i]));
+  for (int i=wl_bottom;i<nq;i++) printf("Q %d width %d stateoff %ld\n", i, serial[i]?1:4094, (long)((char*)_dispatch_verif_queue_state_addr(Q[i])-(char*)Q[i]));
   _dispatch_verif_atomic_cb = cb;
   pthread_t th[64]; for (int i=0;i<nthr;i++) pthread_create(&th[i],0,client,(void*)(intptr_t)i);
   for (int i=0;i<nthr;i++) pthread_join(th[i],0);
